@@ -186,6 +186,21 @@ static void genCase(long k, const vh::Args &a) {
         }
         for (auto *v : vars) delete v;
     }
+    if (!clustered) {
+        // makeFeasible's encoding: the four alternatives (left/right/below/above) offered for the
+        // most overlapping pair, with live variables at the current centres
+        vpsc::Variables vs[2];
+        for (int dim = 0; dim < 2; ++dim)
+            for (unsigned i = 0; i < n; ++i) vs[dim].push_back(new vpsc::Variable((int) i, rs[i]->getCentreD(dim), 1));
+        noc.markAllSubConstraintsAsInactive();
+        if (noc.subConstraintsRemaining()) {
+            cola::SubConstraintAlternatives alts = noc.getCurrSubConstraintAlternatives(vs);
+            for (auto &al : alts)
+                printf("noalt %d %d %d %s %d\n", (int) al.dim, al.constraint.left->id, al.constraint.right->id, H(al.constraint.gap), (int) al.constraint.equality);
+        }
+        printf("noaltdone 1\n");
+        for (int dim = 0; dim < 2; ++dim) for (auto *v : vs[dim]) delete v;
+    }
     delete root;
     for (auto *q : rs) delete q;
     vh::endCase();
@@ -262,11 +277,11 @@ int main(int argc, char **argv) {
     vh::Args a = vh::parseArgs(argc, argv);
     bool thorough = a.tier == "thorough";
     long ngen = (thorough ? 4000 : 500) * a.scale;
-    long nlay = (thorough ? 2500 : 400) * a.scale;
+    long nlay = (thorough ? 2000 : 400) * a.scale;
     if (a.n >= 0) { ngen = a.n; nlay = a.n; }
     long k = 0;
     for (long i = 0; i < ngen; ++i, ++k) if (a.want(k)) genCase(k, a);
-    const unsigned limit = thorough ? 30 : 10;
+    const unsigned limit = thorough ? 20 : 5;
     for (long i = 0; i < nlay; ++i, ++k) {
         if (!a.want(k)) continue;
         fflush(stdout);
